@@ -224,11 +224,10 @@ def check_passthrough(ctx, fb, cfg):
             leaves = F(("unwrap", call("rln::utils::bytes_le_to_vec_fr", L)), "0")
             idx = ov[0][2][3]
             src = F(("unwrap", call("rln::utils::bytes_le_to_vec_u8", I)), "0")
-            okidx = isinstance(idx, tuple) and idx[0] == "call" and idx[1].endswith("Iterator::map") and idx[2][0] == src and idx[2][1][0] == "closure"
-            if okidx:
-                e2 = Engine(fb, inline=lambda i: False)
-                v = [e2.value_of(q.store, q.ret) for q in ret_paths(e2.run(fb.need(idx[2][1][1])))]
-                okidx = v == [("cast", "usize", P(2))]
+            # the element-wise lossless widening u8 -> usize of the decoded list (`*x as usize`, `usize::from`), in any spelling
+            sm = seq_map(fb, idx, eng.run(it))
+            okidx = sm is not None and sm[0] == src and (sm[1] == ("cast", "usize", ELEM) or (
+                sm[1][0] == "call" and re.search(r"From(<u8>)?>?::from$", sm[1][1]) is not None and sm[1][2] == (ELEM,)))
             ok = ov[0][2][0] == F(P(1), "tree") and ov[0][2][1] == P(2) and ov[0][2][2] == leaves and okidx
             why = "override_range arguments %s" % [sh(a, 90) for a in ov[0][2]]
     ctx.check(ok, "R08-5", "RLN::atomic_operation[%s]" % cfg, "override_range(index, decoded leaves, decoded indices as usize)", why, loc(it))
